@@ -87,7 +87,16 @@ fn check_edit(rep: &mut Report, model: &mut Model, cfg: &Cfg, ops: &[Op], b: &Bu
     rep.eval(hash_value(&json!([fnv(&b.bytes), edit, order])), changed);
     rep.count(&format!("edit:{}", edit["kind"].as_str().unwrap_or("?")));
     let kind = edit["kind"].as_str().unwrap_or("?").to_string();
-    let sig = |what: &str| json!({"what": what, "edit": kind, "layers": cfg.layers});
+    // D14 (known finding): the stream is not marked at its end, so the genuine archive cut at a whole
+    // chunk boundary is, for the reader, a genuine archive of the plaintext before the cut
+    // (`C03.truncation_accepted`): whatever the reader then makes of that plaintext (an index found in
+    // file content, planted or accidental; names missing or foreign) is this one weakness.  It is
+    // identified by the situation, not by the symptom.
+    let d14 = {
+        let h = parse_header(&b.bytes).map(|h| h.header_len).unwrap_or(usize::MAX);
+        altered.len() < b.bytes.len() && altered.len() > h && b.bytes.starts_with(&altered) && (altered.len() - h) % (CONSTS.chunk + TAG) == 0
+    };
+    let sig = |what: &str| if d14 { json!({"what": "truncated-at-chunk-boundary", "symptom": what, "edit": kind, "layers": cfg.layers}) } else { json!({"what": what, "edit": kind, "layers": cfg.layers}) };
     let obs = observe(&altered, cfg, order);
     match &obs {
         Err(e) if e == "panic" => { rep.violation("oracle", "C03/no-crash", sig("panic"), "reading an altered archive panics", case()); return false; }
